@@ -907,6 +907,20 @@ type callable struct {
 	vars   []reflect.Value // non-local (global and closure) variables.
 }
 
+// isNil reports whether c represents a nil function.
+func (c *callable) isNil() bool {
+	if c == nil {
+		return true
+	}
+	if c.fn != nil {
+		return false
+	}
+	if c.native != nil {
+		return !c.native.value.IsValid() || c.native.value.IsNil()
+	}
+	return !c.value.IsValid() || c.value.IsNil()
+}
+
 // Native returns the native function of a callable.
 func (c *callable) Native() *NativeFunction {
 	if c.native != nil {
